@@ -18,7 +18,7 @@ DIALECTS_T = ["en", "fr", "ht", "ja", "ar", "ru"]
 
 
 def bounds(tier):
-    return {"quick": "every title / step keyword of the 36 dialects selected by keyword-data properties (non-NFC, space-less, prefix pairs, RTL, punctuation) at depth 2/6 resp. 3 bullets with a plain text (thorough: all 80); dialect en: every title keyword x depth 0..7 x separator x title<=1 x 2 roles; every step keyword x 5 bullets x gap x text<=1; table indentation 0..8; two tags",
+    return {"quick": "every title / step keyword of the 36 dialects selected by keyword-data properties (non-NFC, space-less, prefix pairs, RTL, punctuation) at depth 2/6 resp. 3 bullets with a plain text (thorough: all 80); dialect en: every other pair of title keywords x depth 0..7 x separator x title<=1 x 2 roles; every step keyword x 5 bullets x gap x text<=1; table indentation 0..8; two tags",
             "thorough": "6 dialects (en with title / text <= 2)"}[tier]
 
 
@@ -29,9 +29,9 @@ def conditions(tier):
     for d in (["en"] if q else DIALECTS_T):
         nt = len({(c, k) for c in ("feature", "rule", "background", "scenario", "scenarioOutline", "examples") for k in table[d][c]})
         ns = sum(len(table[d][c]) for c in ("given", "when", "then", "and", "but"))
-        for lo in range(0, nt, 2):
+        for lo in range(0, nt, 4 if q else 2):
             cs.append(Cond(M, "title_line", {"dialect": d, "lo": lo, "hi": lo + 2, "maxlen": 2 if (not q and d == "en") else 1, "ind": "" if lo % 4 else " "}, T=1200 if q else 4000, reach=["recognised"]))
-        for lo in range(0, ns, 3):
+        for lo in range(0, ns, 6 if q else 3):
             cs.append(Cond(M, "step_line", {"dialect": d, "lo": lo, "hi": lo + 3, "maxlen": 2 if (not q and d == "en") else 1}, T=1200 if q else 4000, reach=["recognised"]))
     from . import _l
     names, why = _l.interesting_dialects(table)
